@@ -61,3 +61,12 @@ func zzLess(a, b netip.Addr) bool {
 }
 
 func zzNumAddrs() int { return zzParam("n") }
+
+// system.NewAddresser talks to rtnetlink: an environment stub with no
+// addresses and no routes (Prepare only stores the functions).
+type zzAddresser struct{}
+
+func (zzAddresser) AddressesByIndex(int) ([]system.IP, error) { return nil, nil }
+func (zzAddresser) LoopbackRoutes() ([]system.Route, error)   { return nil, nil }
+
+func zzStub_system_NewAddresser() system.Addresser { return zzAddresser{} }
